@@ -352,6 +352,10 @@ class SCCReader(BaseReader):
         r = re.compile(r"([0-9:;]*)([\s\t]*)((.)*)")
         parts = r.findall(line.lower())
 
+        # a code only repeats the one before it when it is sent in the very
+        # next frame, not when a later line happens to start with it
+        if not self.time_translator.continues_at(parts[0][0]):
+            self.last_command = ""
         self.time_translator.start_at(parts[0][0])
         _verif_emit(self, "line")
         word_list = parts[0][2].split(" ")
@@ -747,6 +751,21 @@ class _SccTimeTranslator:
             microseconds = 0
 
         return microseconds
+
+    def continues_at(self, timespec):
+        """Whether timespec is the frame following the last one counted
+
+        :type timespec: str
+        :rtype: bool
+        """
+        next_frame = self._time[:-2] + str(int(self._time[-2:]) + self._frames)
+        try:
+            gap = self._translate_time(timespec, 0) - self._translate_time(
+                next_frame, 0
+            )
+        except CaptionReadTimingError:
+            return False
+        return abs(gap) < 1
 
     def start_at(self, timespec):
         """Reset the counter to the given time
